@@ -988,6 +988,15 @@ func (w *Worker) callSSA(caller *frame, callpos token.Pos, fn *ssa.Function, arg
 	}
 	if fn.Parent() == nil {
 		name := fnKey(fn)
+		if to, ok := w.eng.redirects[name]; ok {
+			// harness-side replacement of a function the engine cannot execute (listed in evidence)
+			target := w.eng.harnessPkg.Func(to)
+			if target == nil {
+				unsupported("redirect target %s not found in the harness package", to)
+			}
+			w.intrinsicHits["redirect:"+name+"=>"+to]++
+			return w.callSSA(caller, callpos, target, args, nil)
+		}
 		if in := w.eng.intrinsics[name]; in != nil {
 			w.intrinsicHits[name]++
 			return in(w, fr, fn, args)
